@@ -931,14 +931,14 @@ def carma_poly2quads(poly_coeffs: JAXArray) -> JAXArray:
     nRealPair = len(rootsReal) // 2
 
     for i in range(nCompPair):
-        root1 = rootsComp[i]
-        root2 = rootsComp[i + 1]
+        root1 = rootsComp[2 * i]
+        root2 = rootsComp[2 * i + 1]
         quads = jnp.append(quads, (root1 * root2).real)
         quads = jnp.append(quads, -(root1.real + root2.real))
 
     for i in range(nRealPair):
-        root1 = rootsReal[i]
-        root2 = rootsReal[i + 1]
+        root1 = rootsReal[2 * i]
+        root2 = rootsReal[2 * i + 1]
         quads = jnp.append(quads, (root1 * root2).real)
         quads = jnp.append(quads, -(root1.real + root2.real))
 
